@@ -114,11 +114,34 @@ pub fn c12() -> bool {
     bad
 }
 
+/// Fingerprints: two entries that differ in exactly one of namespace, author, key, timestamp or
+/// content hash must have different range fingerprints (real blake3).
+pub fn fp() -> bool {
+    use crate::ranger::RangeEntry;
+    use crate::sync::EntrySignature;
+    let mk = |ns: u8, au: u8, key: &[u8], ts: u64, h: u8| {
+        let id = RecordIdentifier::new(crate::NamespaceId::from(&[ns; 32]), crate::AuthorId::from(&[au; 32]), key);
+        SignedEntry::new(EntrySignature::from_parts(&[1u8; 64], &[2u8; 64]), Entry::new(id, Record::new(Hash::from_bytes([h; 32]), 3, ts)))
+    };
+    let base = mk(1, 2, b"k", 10, 7).as_fingerprint();
+    let variants = [mk(9, 2, b"k", 10, 7), mk(1, 9, b"k", 10, 7), mk(1, 2, b"x", 10, 7), mk(1, 2, b"k", 11, 7), mk(1, 2, b"k", 10, 8)];
+    let names = ["namespace", "author", "key", "timestamp", "content hash"];
+    let mut bad = false;
+    for (v, n) in variants.iter().zip(names) {
+        if v.as_fingerprint() == base {
+            eprintln!("fp: changing the {n} does not change the fingerprint");
+            bad = true;
+        }
+    }
+    bad
+}
+
 pub fn run(id: &str) -> Option<bool> {
     Some(match id {
         "d3" => d3(),
         "d6" => d6(),
         "c12" => c12(),
+        "fp" => fp(),
         "c14" => crate::actor::verif_incrate::witness_c14(),
         _ => return None,
     })
